@@ -61,6 +61,15 @@ DEFECTS = {
                            ('file f.txt = -contents-of -rel-act-home missing.txt', None), ('copy {ABS}/missing.txt', None),
                            ('file f.txt = -contents-of {ABS}/missing.txt', None), ('run % cat -existing-file {ABS}/missing.txt', None),
                            ('run % cat -existing-file -rel-home missing.txt', None),
+                           # arguments appended to a reference to a program symbol (and to a program defined from one)
+                           ('run @ C03_PROG -existing-file -rel-home missing.txt', None),
+                           ('run @ C03_PROG a -existing-path {ABS}/missing.txt b', None),
+                           ('run @ C03_PROG2 -existing-dir -rel-home missing-dir', None),
+                           ('def program C03_P3 = @ C03_PROG -existing-file -rel-home missing.txt\nrun @ C03_P3', None),
+                           ('file g.txt = -stdout-from @ C03_PROG -existing-file -rel-home missing.txt', None),
+                           ('stdout -from @ C03_PROG2 x -existing-file -rel-home missing.txt is-empty', ['assert']),
+                           ('run % cat\n    -stdin -contents-of -rel-home missing.txt', None),
+                           ('run @ C03_PROG\n    -stdin -contents-of -rel-home missing.txt', None),
                            ('def path C03_MP = -rel-here missing.txt\ncopy @[C03_MP]@', None)], 'DefPreSds'),
     'bad integer': ([('file f.txt = -contents-of -rel-home exists.txt -transformed-by filter line-num == abc', None),
                      ('file f.txt = -contents-of -rel-home exists.txt -transformed-by filter line-num == 1.5', None),
@@ -103,7 +112,7 @@ def build_case(markers, insert, act_line=None, conf_lines=(), later_in=None):
     prereq = ['def line-matcher C03_LM = line-num == 1', 'def path C03_HP = -rel-home x', 'def string C03_STR = str',
               # a string symbol that itself has references, and one composed of it and a home-relative path (indirect defects)
               'def string C03_A = @[C03_STR]@', 'def string C03_S2 = @[C03_A]@@[C03_HP]@', 'def string C03_S3 = @[C03_S2]@',
-              'def program C03_PROG = % true']
+              'def program C03_PROG = % true', 'def program C03_PROG2 = @ C03_PROG first-arg']
     if insert is not None:
         p, pos, text = insert
         lst = body[p]
@@ -143,6 +152,8 @@ def gen_cases(ctx, markers):
     for act, later in (('% echo @[C03_UNDEF]@', None), ('% echo @[C03_LATER]@', 'before-assert'), ('% echo @[C03_LATER]@', 'assert'),
                        ('% echo @[C03_LATER]@', 'cleanup'), ('% echo @[C03_LM]@', None), ('@[C03_UNDEF]@ arg', None),
                        ('% cat -existing-file -rel-home missing.txt', None), ('% cat -existing-file {ABS}/missing.txt', None),
+                       ('@ C03_PROG -existing-file -rel-home missing.txt', None), ('@ C03_PROG2 a -existing-path {ABS}/missing.txt', None),
+                       ('@ C03_PROG\n    -stdin -contents-of -rel-home missing.txt', None),
                        ('missing-program-in-home arg', None), ('-rel-home missing-program arg', None)):
         cases.append(('defect in the act phase', None, {'act': act, 'symbol defined later in': later},
                       build_case(markers, None, act_line=act, later_in=later)))
@@ -165,6 +176,110 @@ def gen_cases(ctx, markers):
     return cases
 
 
+# ---------------------------------------------------------------------------------------------
+# the case as one of the cases of a suite: the instruction stands in the SUITE file (parsed once, its objects shared by all
+# cases), what makes it defective is the case's own (a definition in its [setup], a file in its home directory)
+# (instruction in the suite file, phases it may stand in, valid (setup lines, home files), defective variants [(setup lines, home files)], stage)
+SUITE_SHARED = [
+    ('stdout num-lines == @[C03_N]@', ['assert'], (['def string C03_N = 0'], {}),
+     [(['def string C03_N = abc'], {}), (['def string C03_N = 1.5'], {}), ([], {})], None),
+    ('exit-code == @[C03_N]@', ['assert'], (['def string C03_N = 0'], {}), [(['def string C03_N = "1 +"'], {})], None),
+    ('stdout equals -contents-of -rel-home expected.txt', ['assert'], ([], {'expected.txt': ''}), [([], {})], 'DefPreSds'),
+    ('contents -rel-home expected.txt : equals -contents-of -rel-home expected.txt', ['assert'], ([], {'expected.txt': ''}), [([], {})], 'DefPreSds'),
+    ('stdout -transformed-by replace @[C03_RE]@ y is-empty', ['assert'], (['def string C03_RE = a'], {}),
+     [(["def string C03_RE = '('"], {}), (["def string C03_RE = '[a'"], {})], None),
+    ('file g-{PH}.txt = -contents-of -rel-home exists.txt -transformed-by replace @[C03_RE]@ y', ['before-assert', 'assert', 'cleanup'],
+     (['def string C03_RE = a'], {}), [(["def string C03_RE = '*'"], {})], None),
+    ('run @ C03_P -existing-file -rel-home expected.txt', ['before-assert', 'assert', 'cleanup'],
+     (['def program C03_P = % true'], {'expected.txt': ''}), [(['def program C03_P = % true'], {})], 'DefPreSds'),
+    ('copy -rel-home expected.txt copied-{PH}.txt', ['before-assert', 'cleanup'], ([], {'expected.txt': ''}), [([], {})], 'DefPreSds'),
+    ('stdout C03_M', ['assert'], (['def text-matcher C03_M = is-empty'], {}),
+     [(['def line-matcher C03_M = line-num == 1'], {}), (['def string C03_M = x'], {}), ([], {})], 'DefSymbols'),
+    ('dir @[C03_D]@/d-{PH}', ['before-assert', 'assert', 'cleanup'], (['def path C03_D = -rel-act x'], {}),
+     [(['def path C03_D = -rel-home x'], {}), (['def path C03_D = -rel-result x'], {})], 'DefSymbols'),
+]
+
+
+def suite_case_text(markers, cid, defs):
+    text = '[setup]\n' + '\n'.join(list(defs) + ['$ touch %s/%s-setup-1' % (markers, cid), '$ touch %s/%s-setup-2' % (markers, cid)]) + '\n'
+    text += '[act]\n$ touch %s/%s-act\n' % (markers, cid)
+    for p in PHASES[1:]:
+        text += '[%s]\n$ touch %s/%s-%s-1\n$ touch %s/%s-%s-2\n' % (p, markers, cid, p, markers, cid, p)
+    return text
+
+
+def suite_scenarios(ctx):
+    rng = ctx.rng
+    out = []
+    for (instr, phases, valid, defective, stage) in SUITE_SHARED:
+        for ph in phases:
+            for dv in defective:
+                positions = (0, 1, 2) if not ctx.quick else (rng.choice((1, 2)), 0) if rng.chance(0.5) else (rng.choice((1, 2)),)
+                for dpos in positions:
+                    out.append((instr.replace('{PH}', ph), ph, valid, dv, dpos, stage))
+    return out
+
+
+def run_suites(ctx, res, root, sbx, markers, mp, created):
+    terms, meta = [], []
+    dropped = 0
+    for k, (instr, ph, valid, dv, dpos, stage) in enumerate(suite_scenarios(ctx)):
+        d = os.path.join(root, 'suite%d' % k)
+        os.makedirs(d)
+        for fn in os.listdir(markers):
+            os.remove(os.path.join(markers, fn))
+        del created[:]
+        texts = {}
+        for i in range(3):
+            defs, files = dv if i == dpos else valid
+            cd = os.path.join(d, 'c%d' % i)
+            os.makedirs(cd)
+            open(os.path.join(cd, 'exists.txt'), 'w').write('1\n2\n')
+            for fn, content in files.items():
+                open(os.path.join(cd, fn), 'w').write(content)
+            texts['c%d/t.case' % i] = suite_case_text(markers, 'c%d' % i, defs)
+            open(os.path.join(cd, 't.case'), 'w').write(texts['c%d/t.case' % i])
+        suite_text = '[cases]\nc0/t.case\nc1/t.case\nc2/t.case\n[%s]\n%s\n' % (ph, instr)
+        open(os.path.join(d, 's.suite'), 'w').write(suite_text)
+        pr = impl.run_main(mp, ['suite', 's.suite'], d, root)
+        desc = {'kind': 'case run as one of three cases of a suite', 'suite file': suite_text, 'cases': texts,
+                'defective case': 'c%d/t.case' % dpos,
+                'home files of the valid cases': sorted(valid[1]), 'home files of the defective case': sorted(dv[1])}
+        if pr.exception is not None:
+            res.prop_failures.append(Failure('property', desc, 'exception escaped MainProgram.execute: %r' % pr.exception))
+            continue
+        status = {}
+        for line in pr.out.split('\n'):
+            if line.startswith('case ') and ': (' in line:
+                name = line[len('case'):].split(':')[0].strip()
+                status[name] = line.rsplit(' ', 1)[-1].strip()
+        mk = os.listdir(markers)
+        per = [len([m for m in mk if m.startswith('c%d-' % i)]) for i in range(3)]
+        ok_valid = all(status.get('c%d/t.case' % i) == 'PASS' and per[i] == 9 for i in range(3) if i != dpos)
+        if not ok_valid:
+            # not C03's business (the valid cases of the suite do not pass): the scenario says nothing about the defective one
+            dropped += 1
+            res.count('suite scenario dropped: a valid case did not pass')
+            shutil.rmtree(d, ignore_errors=True)
+            continue
+        first = status.get('c%d/t.case' % dpos)
+        st = stage_of_ident(first) or stage or 'DefPreSds'
+        if stage == 'DefSymbols' and first == 'VALIDATION_ERROR':
+            st = 'DefSymbols'
+        ident = {'SYNTAX_ERROR': '(IdAccess ACC_SYNTAX_ERROR)'}.get(first) or IDENT.get(first)
+        desc['observed'] = {'suite exit': pr.exit_code, 'status of each case': status, 'markers of each case': per,
+                            'sandboxes_created': len(created)}
+        if ident is None:
+            res.prop_failures.append(Failure('property', desc, 'the suite reports no status for the defective case'))
+            continue
+        terms.append('(C03Suite %s %s %s %s)' % (st, ident, cnat(per[dpos]), cnat(max(0, len(created) - 2))))
+        meta.append(desc)
+        res.count('suite mode: defective case is number %d' % (dpos + 1))
+        res.nontrivial.add(('suite', instr, ph, tuple(dv[0]), dpos))
+        shutil.rmtree(d, ignore_errors=True)
+    return terms, meta
+
+
 def stage_of_ident(first_line):
     return {'SYNTAX_ERROR': 'DefParse', 'VALIDATION_ERROR': 'DefPreSds', 'FILE_ACCESS_ERROR': 'DefInclude'}.get(first_line)
 
@@ -182,7 +297,9 @@ def run(ctx, res):
                 'action; one defective instruction inserted at every phase x position (first/middle/last) x class (syntax, unknown '
                 'instruction, undefined symbol, symbol defined later, wrong symbol type, illegal relativity via symbol, missing home file, '
                 'bad integer, bad regex; up to 3 variants per class in quick, all in thorough), plus act-phase syntax, conf-phase defects, '
-                'missing included file, (thorough) two simultaneous defects; each also through the `symbol` command; plus the valid template. '
+                'missing included file, (thorough) two simultaneous defects; each also through the `symbol` command and (a sample) under --act / --keep; '
+                'plus the valid template; plus suite mode: 10 instructions standing in the suite file x phase, defective only for one of '
+                'three cases (by that case\'s own definitions / home files), that case being 1st/2nd/3rd. '
                 'non-trivial := a defect is present; distinct := distinct case text')
 
     def clear():
@@ -267,8 +384,9 @@ def run(ctx, res):
         sterms.append('(C03Sym (Some %s) %s %s)' % (st, cnat(nm2), cnat(ns2)))
         smeta.append({'kind': 'symbol command', 'class': cls, 'where': desc, 'case': text,
                       'observed': {'exit': pr2.exit_code, 'markers': nm2, 'sandboxes_created': ns2}})
+    uterms, umeta = run_suites(ctx, res, root, sbx, markers, mp, created)
     shutil.rmtree(root, ignore_errors=True)
-    res.evaluations = len(terms) + len(sterms)
+    res.evaluations = len(terms) + len(sterms) + len(uterms)
     res.samples = [meta[0], meta[len(meta) // 2], smeta[-1]]
     imports = ['Model.Outcome', 'Model.Exec', 'Model.World', 'Spec.C01', 'Spec.C04']
     cb, pb, errs = common.run_shards('C03', imports, 'check_c03', terms, tag='cases')
@@ -278,6 +396,13 @@ def run(ctx, res):
                                                               'VALIDATION_ERROR, leave no marker (no instruction or action executed) and create no sandbox'))
     for i in cb:
         res.disagreements.append(Failure('correspondence', meta[i], 'model process (stage that detects this class of defect) differs from the real program'))
+    cb, pb, errs = common.run_shards('C03', imports, 'check_c03_suite', uterms, tag='suite')
+    res.errors += errs
+    for i in pb:
+        res.prop_failures.append(Failure('property', umeta[i], 'a case that is defective must be reported SYNTAX_ERROR / FILE_ACCESS_ERROR / '
+                                                               'VALIDATION_ERROR by the suite, leave no marker and create no sandbox'))
+    for i in cb:
+        res.disagreements.append(Failure('correspondence', umeta[i], 'model process differs from the real program (case run in a suite)'))
     cb, pb, errs = common.run_shards('C03', imports, 'check_c03_sym', sterms, tag='symbol')
     res.errors += errs
     for i in pb:
